@@ -13,9 +13,9 @@ Model: `Spine.updateListF` — `model.UpdateList` with `Merge`, `copyToSelectedD
 `writecheck` flag is `true` (`writeAllowed`); a remote write is `updateData c sh h true true …` (what
 `executeWrite` issues). The probe phase of `TestHeap` selects the member the tree under test is.
 
-**Which member is /repo.** After `fix:` c542973 (Merge) and 5e272e0 (selector with an empty list) /repo is
-`Heap.head`: `mergeStrict`, `emptySelPanics` off; `fastpathRemote`, `fastpathAdopts`, `selNilPanics`,
-`inplaceAltersFlag`, `deleteStrict` on. With the series `fixes/c04` (01, 02, 04) it is `Heap.patched`:
+**Which member is /repo.** After `fix:` c542973 (Merge), 5e272e0 (selector with an empty list) and e4eb02d
+(SelectorMatch) /repo is `Heap.head`: `mergeStrict`, `emptySelPanics`, `selNilPanics` off; `fastpathRemote`,
+`fastpathAdopts`, `inplaceAltersFlag`, `deleteStrict` on. With the series `fixes/c04` (01, 02, 04) it is `Heap.patched`:
 additionally `inplaceAltersFlag`, `deleteStrict`, `fastpathAdopts` off. Every theorem below is stated for all
 members that have the flag it needs off (hypotheses such as `c.mergeStrict = false`); `head` and `patched` satisfy
 them by `rfl` (examples). The member with all flags on is the code at the pinned commit
